@@ -68,6 +68,8 @@ func (P *Prog) verifyFunc(fn *ssa.Function, c *Contract, cfgVal int, hasCfg bool
 	}()
 	st := &State{pc: True(), env: map[ssa.Value]Val{}, heap: NewHeap()}
 	x.alloc0 = Var("alloc0", SInt)
+	refLoadedHook = func(t *Term) { x.initialRefs(t, 0) }
+	defer func() { refLoadedHook = nil }()
 	st.alloc = x.alloc0
 	x.assumeGlobal(Ge(x.alloc0, IntLit(1)))
 	for _, p := range fn.Params {
@@ -79,8 +81,13 @@ func (P *Prog) verifyFunc(fn *ssa.Function, c *Contract, cfgVal int, hasCfg bool
 	for _, fv := range fn.FreeVars {
 		v := namedVal(fv.Type(), fv.Name())
 		st.env[fv] = v
-		x.params[fv.Name()] = v
 		x.noteLoaded(st, v)
+		if v.K == VPtr && len(v.Idx) == 1 {
+			x.assumeGlobal(Neq(v.Idx[0], IntLit(0))) // a captured variable always has a cell
+		}
+		dv := x.derefCell(st, v)
+		x.noteLoaded(st, dv)
+		x.params[fv.Name()] = dv
 	}
 	// configuration coverage: the precondition implies that one of the configurations applies
 	if hasCfg && cfgVal == c.Config.Lo {
@@ -123,6 +130,19 @@ func (P *Prog) verifyFunc(fn *ssa.Function, c *Contract, cfgVal int, hasCfg bool
 		x.assumeGlobal(x.evalClause(ce, r, res.Name))
 	}
 	x.cover(st, "requires")
+	// lemmas stated at entry: proved from the precondition, then available to everything that follows
+	for ai, a := range c.Asserts {
+		if a.Anchor != "entry" {
+			continue
+		}
+		lbl := a.Clause.Label
+		if lbl == "" {
+			lbl = fmt.Sprint(ai)
+		}
+		g := x.evalClause(ce, a.Clause, res.Name)
+		x.oblige(st, "assert", "entry."+lbl, g, "lemma at entry: "+a.Clause.Text)
+		x.assumeGlobal(g)
+	}
 	// watch list available to every obligation: parameters and debugging expressions in the pre-state
 	for _, p := range fn.Params {
 		var fl []*Term
@@ -297,31 +317,42 @@ func (x *Exec) bindConfigValue(st *State, ce *CEnv, b ConfigBinding) {
 
 // frameCheck: every family may differ from its pre-state only at the locations of the modifies
 // clause or at objects allocated during the call.
-func (x *Exec) frameCheck(final *State, ce *CEnv, c *Contract) {
+func (x *Exec) modifiesLocs(ce *CEnv, c *Contract) []hloc {
 	var locs []hloc
-	func() {
-		defer func() {
-			if r := recover(); r != nil {
-				if e, ok := r.(CEvalError); ok {
-					panic(UnsupportedError{"modifies clause: " + e.msg})
-				}
-				panic(r)
+	defer func() {
+		if r := recover(); r != nil {
+			if e, ok := r.(CEvalError); ok {
+				panic(UnsupportedError{"modifies clause: " + e.msg})
 			}
-		}()
-		pre := *ce
-		pre.heap = x.oldHeap
-		for _, m := range c.Modifies {
-			locs = append(locs, x.resolveLoc(&pre, m.Expr)...)
+			panic(r)
 		}
 	}()
+	pre := *ce
+	pre.heap = x.oldHeap
+	for _, m := range c.Modifies {
+		locs = append(locs, x.resolveLoc(&pre, m.Expr)...)
+	}
+	return locs
+}
+
+func (x *Exec) frameCheck(final *State, ce *CEnv, c *Contract) {
+	x.frameAgainst(final, x.oldHeap, x.modifiesLocs(ce, c), "frame", "", nil)
+}
+
+// frameAgainst: every family of st.heap may differ from ref only at the given locations or at
+// objects allocated since the function started. only != nil restricts the check to those families.
+func (x *Exec) frameAgainst(st *State, ref *Heap, locs []hloc, kind, prefix string, only map[string]bool) {
 	byFam := map[string][]hloc{}
 	for _, l := range locs {
 		byFam[l.fam] = append(byFam[l.fam], l)
 	}
-	for _, name := range final.heap.Names() {
+	for _, name := range st.heap.Names() {
+		if only != nil && !only[name] {
+			continue
+		}
 		fi := famReg[name]
-		nf := final.heap.Get(name, fi.arity, fi.sort)
-		of := x.oldHeap.Get(name, fi.arity, fi.sort)
+		nf := st.heap.Get(name, fi.arity, fi.sort)
+		of := ref.Get(name, fi.arity, fi.sort)
 		if nf == of {
 			continue
 		}
@@ -339,7 +370,7 @@ func (x *Exec) frameCheck(final *State, ce *CEnv, c *Contract) {
 		}
 		idx := make([]*Term, fi.arity)
 		for i := range idx {
-			idx[i] = Var(fmt.Sprintf("frame!%s!%d", name, i), SInt)
+			idx[i] = Var(fmt.Sprintf("frame!%s%s!%d", prefix, name, i), SInt)
 		}
 		var excl []*Term
 		if fi.arity > 0 && !strings.HasPrefix(name, "log#") {
@@ -359,7 +390,7 @@ func (x *Exec) frameCheck(final *State, ce *CEnv, c *Contract) {
 			excl = append(excl, c)
 		}
 		goal := Or(append(excl, Eq(nf.Select(idx), of.Select(idx)))...)
-		x.oblige(final, "frame", name, goal, "only the modifies clause may change "+name)
+		x.oblige(st, kind, prefix+name, goal, "only the modifies clause may change "+name)
 	}
 }
 
